@@ -24,6 +24,11 @@ type propSpec struct {
 	SampleTopics []string
 	Par          int
 	Assumptions  []string
+	// Includes: findings of another property count for this one in runs in
+	// which the named statistic is positive (the statement of this property
+	// includes that one under its own workload, e.g. "election safety
+	// continues to hold throughout membership changes")
+	Includes map[string]string
 }
 
 func (p propSpec) minNontrivial(tier string) int {
@@ -126,6 +131,11 @@ func (a *aggregate) add(r *runResult) {
 		}
 	}
 	for _, f := range r.rep.Findings {
+		if st, ok := a.spec.Includes[f.Prop]; ok && r.rep.Stats[st] > 0 {
+			f.Rule = f.Prop + "/" + f.Rule
+			f.Sig = f.Prop + "/" + f.Sig
+			f.Prop = a.prop
+		}
 		if f.Prop == a.prop {
 			key := f.Sig
 			if a.sigSeen[key] {
